@@ -49,7 +49,10 @@ def HelpersMatrix : Prop :=
 
 def isErr {α : Type} (r : Except Err α) : Prop := r = .error .undefinedError
 
-/-- **site_matrix**.  For an undefined operand `u` (a missing variable), any state, any mode, any
+/-- **site_matrix**.  For an undefined operand `u` (a missing variable), any state — in particular any
+    output routing `s.outs`: live, capturing (block, macro, call block, set block, filter block, `import .. as`),
+    discarding (top level of a child template after `{% extends %}`, module of `{% from .. import %}`) or the
+    null output of `Expression::eval`; see also `emit_check_independent_of_output` —, any mode, any
     program and any choice of the abstract operations:
   1. printing fails under Strict and SemiStrict only (default or custom formatter), and otherwise
      the undefined is written by `write_escaped` resp. handed to the custom formatter (`emitVia`);
@@ -60,7 +63,9 @@ def isErr {α : Type} (r : Except Err α) : Prop := r = .error .undefinedError
      in every mode (so `a.b.c` with a missing `b` fails at `.c`, except under Chainable);
   5. `is defined`, `is undefined` and `default` never fail, with a mode-independent result;
   6. a *silent* undefined (`x if false`) prints (it reaches the formatter in every mode), iterates
-     and truth-tests without error in every mode. -/
+     and truth-tests without error in every mode;
+  7. spreading an undefined over the arguments of a call (`f(*u)`, `UnpackLists`) is an iteration: it fails
+     under Strict and SemiStrict only, and otherwise contributes no arguments. -/
 def SiteMatrix : Prop :=
   ∀ (ops : Ops) (P : Prog),
   (∀ m (s : St) r, s.stack = .undef :: r →
@@ -94,7 +99,10 @@ def SiteMatrix : Prop :=
   (∀ m (s : St) r t, s.stack = .silent :: r →
       step ops P m .emit s = .ok (s.emitVia r .silent) ∧
       step ops P m (.pushLoop 1) s = .ok { s with stack := r, frames := { loop := some { items := [] } } :: s.frames }.next ∧
-      step ops P m (.jumpIfFalse t) s = .ok { s with stack := r, pc := t })
+      step ops P m (.jumpIfFalse t) s = .ok { s with stack := r, pc := t }) ∧
+  (∀ m (s : St) r, s.stack = .undef :: r →
+      (isErr (step ops P m (.unpackLists 1) s) ↔ (m = .strict ∨ m = .semiStrict)) ∧
+      (¬ (m = .strict ∨ m = .semiStrict) → step ops P m (.unpackLists 1) s = .ok { s with stack := .int 0 :: r }.next))
 
 /-- **C12 on the model** (full strength): (1) any run of the VM model — any instruction lists, any
     state, any number of steps, any choice of the abstract mode-independent operations — that
@@ -192,6 +200,72 @@ theorem arg_conversion_table (v : V) :
     have hf : (ArgTy.base "Cow<str>").asksOwned = fun _ => [] := by
       funext x; simp [ArgTy.asksOwned, ho.2]
     simp [ArgTy.asks, hw.2.2, hf]
+
+/-- **conversion_consults_mode_only_by_assert_not_undef**: whatever the signature and the arguments,
+    the only question the conversion layer of a call puts to the undefined behaviour is
+    `assert_value_not_undefined` (about an argument, or about the items of a list converted to `Vec<T>`). -/
+theorem conversion_consults_mode_only_by_assert_not_undef (ops : Ops) (sig : List ArgTy) (args : List V) :
+    (convCall ops sig args).AllAsks isAssertNotUndef := convCall_assert ops sig args
+
+/-- **conversion_mode_classes**: hence the conversion layer of *any* call (of a builtin, of a filter added by
+    minijinja-contrib or by the application) has exactly two behaviours: the one of Strict = SemiStrict and the
+    one of Lenient = Chainable, and under the latter two it never fails at a question. -/
+theorem conversion_mode_classes (ops : Ops) (sig : List ArgTy) (args : List V) :
+    (convCall ops sig args).run .strict = (convCall ops sig args).run .semiStrict ∧
+    (convCall ops sig args).run .lenient = (convCall ops sig args).run .chainable ∧
+    (convCall ops sig args).failsAtAsk .lenient = false ∧ (convCall ops sig args).failsAtAsk .chainable = false := by
+  have h := convCall_assert ops sig args
+  have hq : ∀ (m m' : Mode) (q : HQ), ((m = .strict ∧ m' = .semiStrict) ∨ (m = .lenient ∧ m' = .chainable)) →
+      isAssertNotUndef q → q.run m = q.run m' := by
+    intro m m' q hm hq
+    cases q <;> simp [isAssertNotUndef] at hq
+    rename_i k
+    rcases hm with ⟨rfl, rfl⟩ | ⟨rfl, rfl⟩ <;> cases k <;> decide
+  have hl : ∀ (m : Mode) (q : HQ), (m = .lenient ∨ m = .chainable) → isAssertNotUndef q → ∃ b, q.run m = .ok b := by
+    intro m q hm hq
+    cases q <;> simp [isAssertNotUndef] at hq
+    rename_i k
+    rcases hm with rfl | rfl <;> cases k <;> exact ⟨true, by decide⟩
+  exact ⟨(Comp.run_congr _ _ _ (Comp.allAsks_mono _ _ (hq _ _ · (Or.inl ⟨rfl, rfl⟩)) _ h)).1,
+         (Comp.run_congr _ _ _ (Comp.allAsks_mono _ _ (hq _ _ · (Or.inr ⟨rfl, rfl⟩)) _ h)).1,
+         Comp.not_failsAtAsk _ _ (Comp.allAsks_mono _ _ (hl _ · (Or.inl rfl)) _ h),
+         Comp.not_failsAtAsk _ _ (Comp.allAsks_mono _ _ (hl _ · (Or.inr rfl)) _ h)⟩
+
+/-- the two classes really differ: `{{ u|upper }}` -/
+example : (convCall Ops.convOnly [.base "StringInput"] [.undef]).run .semiStrict ≠
+    (convCall Ops.convOnly [.base "StringInput"] [.undef]).run .lenient := by decide
+
+/-- **param_consults_iff**: a parameter type for which `ArgTy.consults` is false asks nothing whatever the
+    argument; one for which it is true asks for some (defined) argument — so `consultingParams` lists exactly
+    the parameters of a signature whose conversion can depend on the mode. -/
+theorem param_consults_iff (t : ArgTy) :
+    (t.consults = false → ∀ v, t.asks v = []) ∧ (t.consults = true → ∃ v : V, v.kind = .defined ∧ v ≠ .none ∧ t.asks v ≠ []) :=
+  ⟨asks_nil_of_not_consults t, consults_witness t⟩
+
+example : (ArgTy.opt (.base "StringInput")).consults = false ∧ (ArgTy.vec (.base "String")).consults = true ∧
+    (ArgTy.vec (.base "Cow<str>")).consults = false ∧ (ArgTy.rest (.base "String")).consults = true := by decide
+
+/-- **builtin_params_consulting_mode** — the table of parameter types of all registered builtins (regenerated
+    from filters.rs / tests.rs / functions.rs on every run) and of everything minijinja-contrib registers
+    (its filters / globals): every parameter type is a known `ArgType` impl, and the parameters whose
+    conversion can consult the mode are exactly the listed positions (`String`, `Cow<str>`, `StringInput`
+    receivers and arguments; an `Option<..>` drops the state).  A builtin that starts to take its argument
+    through a checking conversion, or stops doing so, changes this table.  The sources of the contrib filters
+    and globals never reach the mode; pycompat's method callback does so through `StringInput::new` only. -/
+theorem builtin_params_consulting_mode :
+    consultingTable MJ.Gen.undefBuiltinSigs = [
+      ("filter", "safe", [0]), ("filter", "lower", [0]), ("filter", "upper", [0]), ("filter", "title", [0]),
+      ("filter", "capitalize", [0]), ("filter", "replace", [0, 1, 2]), ("filter", "trim", [0]), ("filter", "indent", [0]),
+      ("filter", "selectattr", [1]), ("filter", "rejectattr", [1]),
+      ("test", "startingwith", [0, 1]), ("test", "endingwith", [0, 1])] ∧
+    consultingTable MJ.Gen.undefContribSigs = [("filter", "striptags", [0])] ∧
+    MJ.Gen.undefBuiltinSigs.all (fun r => sigKnown r.1 r.2.1) = true ∧
+    MJ.Gen.undefContribSigs.all (fun r => match contribSigOf r.1 r.2.1 with
+      | some (sig, reach) => sig.all ArgTy.known && reach.isEmpty && r.2.2.2.2.isEmpty
+      | none => false) = true ∧
+    MJ.Gen.undefContribSigs.map (fun r => r.2.1) = ["pluralize", "filesizeformat", "truncate", "striptags", "wordcount",
+      "wordwrap", "datetimeformat", "timeformat", "dateformat", "now", "random", "lipsum", "randrange", "cycler", "joiner"] ∧
+    MJ.Gen.undefPycompatReach = (["StringInput::new"], []) := by decide
 
 /-- **builtin_mono_of_sig**: a call of a registered builtin — conversion layer from its extracted
     signature, then its body (a hand model of its helper questions, nested calls included, or a
@@ -433,6 +507,145 @@ example :
     (runVm Ops.exec P .strict 50 {}).map St.output = .error (.other "BadInclude or EvalBlock") := by
   refine ⟨?_, ?_, ?_⟩ <;> decide
 
+/-! ## the Emit arm: the undefined check does not depend on where the output goes -/
+
+/-- **emit_arm_check_dominates** — source tie of the shape of the `Instruction::Emit` arm (its control-flow
+    tree is extracted from vm/mod.rs on every run): on every path through the arm the undefined check — the
+    inline `strict_undefined && Undefined(Default)` test followed by `bail!`, or `Environment::format`, whose
+    rows contain it — comes before the value is written and before the arm is left; there is no early exit,
+    no statement the classifier does not know, and the only condition in front of the check is the choice of
+    the formatter (a condition on the output, e.g. `out.is_discarding()`, is rejected). -/
+theorem emit_arm_check_dominates : emitArmOk MJ.Gen.undefVmEmitShape = true := by decide
+
+/-- not vacuous: the arm with the check skipped for a discarding output, the arm that writes before it
+    checks, and the arm with an early exit in the default-formatter branch are all rejected -/
+example :
+    emitArmOk (.act "pop" (.ite "default_formatter" (.ite "not_out_discarding" (.ite "strict_undefined_default"
+      (.act "bail_undefined" .done) .done (.act "write_escaped" .done)) .done .done) (.act "env_format" .done) .done)) = false ∧
+    emitArmOk (.act "pop" (.ite "default_formatter" (.act "write_escaped" (.ite "strict_undefined_default"
+      (.act "bail_undefined" .done) .done .done)) (.act "env_format" .done) .done)) = false ∧
+    emitArmOk (.act "pop" (.ite "default_formatter" (.act "exit" .done) (.act "env_format" .done) .done)) = false := by decide
+
+/-- **emit_arm_is_model**: the hand model of `Emit` (`emitC`, the step the VM model takes) *is* the
+    interpretation of the arm as the source has it now — statement by statement: pop, the formatter split,
+    the inline test as the question `emit`, `write_escaped`, `Environment::format` as the question
+    `envFormat` followed by the formatter call. -/
+theorem emit_arm_is_model (s : St) : emitShapeC MJ.Gen.undefVmEmitShape s = emitC s := by
+  unfold emitShapeC emitC MJ.Gen.undefVmEmitShape
+  cases hs : s.stack with
+  | nil => simp [armC, hs]
+  | cons v r =>
+    by_cases hf : s.formatter = 0
+    · simp [armC, armCond, hs, hf, St.emitVia]
+    · simp [armC, armCond, hs, hf, St.emitVia]
+      funext called
+      cases called <;> rfl
+
+/-- the interpretation is not the identity on shapes: the arm that skips the check for a discarding output
+    prints an undefined under Strict when the output is discarding (`outs = [none, ..]`), and only then -/
+example :
+    let sh : MJ.Gen.ArmShape := .act "pop" (.ite "default_formatter" (.ite "not_out_discarding" (.ite "strict_undefined_default"
+      (.act "bail_undefined" .done) .done (.act "write_escaped" .done)) .done .done) (.act "env_format" .done) .done)
+    ((emitShapeC sh { stack := [.undef], outs := [Option.none, some []] }).run .strict).map St.output = .ok "" ∧
+    ((emitShapeC sh { stack := [.undef], outs := [some []] }).run .strict).map St.output = .error .undefinedError ∧
+    ((emitC { stack := [.undef], outs := [Option.none, some []] }).run .strict).map St.output = .error .undefinedError := by
+  refine ⟨?_, ?_, ?_⟩ <;> decide
+
+/-- the same state with the output routed elsewhere: other buffers, more or fewer open captures, a
+    discarding level on top, the null output of `Expression::eval` (`[none]`) -/
+abbrev reroute (s : St) (outs : List OutBuf) : St := { s with outs := outs }
+
+/-- **emit_check_independent_of_output**: whether `Emit` fails, with which error, and at which question to
+    the undefined behaviour, does not depend on the output routing — live, capturing, discarding (top level
+    of a child template after `{% extends %}`, module of `{% from .. import %}`) or null; and when it
+    succeeds, the successor states differ in the output buffers only.  "The output goes nowhere" does not
+    switch the check off. -/
+theorem emit_check_independent_of_output (ops : Ops) (P : Prog) (m : Mode) (s : St) (outs' : List OutBuf) :
+    (∀ e, step ops P m .emit s = .error e ↔ step ops P m .emit (reroute s outs') = .error e) ∧
+    ((stepC ops P .emit s).failsAtAsk m = (stepC ops P .emit (reroute s outs')).failsAtAsk m) ∧
+    (∀ r, step ops P m .emit s = .ok r → ∃ r', step ops P m .emit (reroute s outs') = .ok r' ∧ r' = reroute r r'.outs) := by
+  cases hs : s.stack with
+  | nil => simp [step, stepC, stepC1, emitC, inspects, hs, Comp.run, Comp.failsAtAsk, reroute]
+  | cons v r =>
+    by_cases ho : v.isOpaque = true
+    · simp [step, stepC, stepC1, inspects, hs, ho, Comp.run, Comp.failsAtAsk, reroute]
+    · by_cases hf : s.formatter = 0
+      · simp only [step, stepC, stepC1, emitC, inspects, hs, hf, reroute]
+        cases hq : (HQ.emit v.kind).run m with
+        | error e => simp [ho, Comp.run, Comp.failsAtAsk, hq]
+        | ok b => simp [ho, Comp.run, Comp.failsAtAsk, hq, St.emitVia, hf, St.next]
+      · simp only [step, stepC, stepC1, emitC, inspects, hs, hf, reroute]
+        cases hq : (HQ.envFormat v.kind).run m with
+        | error e => simp [ho, Comp.run, Comp.failsAtAsk, hq]
+        | ok b => cases b <;> simp [ho, Comp.run, Comp.failsAtAsk, hq, St.emitVia, hf, St.next]
+
+/-- printing an undefined with a live, a capturing, a discarding and the null output: Strict fails in all
+    four, Lenient succeeds in all four -/
+example :
+    [[some []], [some [], some []], [Option.none, some []], [Option.none]].map (fun outs =>
+      ((step Ops.exec (Prog.single #[]) .strict .emit { stack := [.undef], outs := outs }).map St.output,
+       (step Ops.exec (Prog.single #[]) .lenient .emit { stack := [.undef], outs := outs }).map St.output)) =
+    [(.error .undefinedError, .ok ""), (.error .undefinedError, .ok ""), (.error .undefinedError, .ok ""),
+     (.error .undefinedError, .ok "")] := by decide
+
+/-- the top level of a child template (`{% extends 'base' %}{{ u }}`) and of a module loaded with
+    `{% from 'mod' import hello %}` (`mod` = `{{ u }}{% macro hello() %}hello{% endmacro %}`), as compiled: the print
+    runs with a discarding output and still fails under SemiStrict; under Lenient the parent / the importing
+    template render -/
+example :
+    let child : Prog := {
+      codes := #[#[.loadConst (.str "base"), .loadBlocks, .lookup "u", .emit],
+                 #[.emitRaw "<", .callBlock "body", .emitRaw ">"],
+                 #[.emitRaw "base"]],
+      templates := [("base", 1)], parentBlocks := [("base", [("body", 2)])] }
+    let importer : Prog := {
+      codes := #[#[.beginCapture true, .pushWith, .loadConst (.str "mod"), .include_ false, .endCapture, .exportLocals, .popFrame,
+                   .dupTop, .getAttr "hello", .storeLocal "hello", .discardTop,
+                   .emitRaw "[", .callFunction "hello" 0, .emit, .emitRaw "]"],
+                 #[.lookup "u", .emit, .jump 5, .emitRaw "hello", .ret, .getClosure, .loadConst (.seq []),
+                   .buildMacro "hello" 3 0, .storeLocal "hello"]],
+      templates := [("mod", 1)] }
+    child.inFragment = true ∧ importer.inFragment = true ∧
+    (runVm Ops.exec child .lenient 50 {}).map St.output = .ok "<base>" ∧
+    (runVm Ops.exec child .semiStrict 50 {}).map St.output = .error .undefinedError ∧
+    (runVm Ops.exec importer .lenient 50 {}).map St.output = .ok "[hello]" ∧
+    (runVm Ops.exec importer .semiStrict 50 {}).map St.output = .error (.other "BadInclude or EvalBlock") := by
+  refine ⟨?_, ?_, ?_, ?_, ?_, ?_⟩ <;> decide
+
+/-! ## auto-escaping: `join_safe` -> `State::format`; `*args` -/
+
+/-- **join_safe_consults_mode_only_by_env_format**: the one builtin whose body depends on `state.auto_escape()`.
+    While HTML auto-escaping is on, `join` formats every item that is not a safe string with `State::format`,
+    i.e. `Environment::format`; these are its only questions to the undefined behaviour (so an undefined item
+    fails under Strict and SemiStrict exactly when auto-escaping is on and the joiner or an item is safe), and
+    `UnpackLists` asks `try_iter` about each `*args` batch and nothing else. -/
+theorem join_safe_consults_mode_only_by_env_format (formatter : Nat) (v : V) (joiner : Option V) (batches : List V) :
+    (joinAeC formatter v joiner).AllAsks isEnvFormat ∧ (unpackListsC batches).AllAsks (fun q => ∃ k, q = .tryIter k) :=
+  ⟨joinAeC_asks formatter v joiner, unpackListsC_asks batches⟩
+
+/-- `{% autoescape 'html' %}{{ [hs, u]|join(',') }}{% endautoescape %}` with a safe `hs` = `<i>`, as compiled: the
+    undefined item goes through `State::format`, which fails under SemiStrict; without the autoescape block
+    `join_plain` never asks, so the same join renders under Strict.  The plain joiner is escaped. -/
+example :
+    let code : Array Instr := #[.loadConst (.str "html"), .pushAutoEscape, .lookup "hs", .lookup "u", .buildList 2,
+      .loadConst (.str "<"), .applyFilter "join" 2, .emit, .popAutoEscape]
+    let plain : Array Instr := #[.lookup "hs", .lookup "u", .buildList 2, .loadConst (.str "<"), .applyFilter "join" 2, .emit]
+    let s : St := { ctx := [("hs", .safe "<i>")] }
+    (Prog.single code).inFragment = true ∧
+    (runVm Ops.exec (Prog.single code) .lenient 20 s).map St.output = .ok "<i>&lt;" ∧
+    (runVm Ops.exec (Prog.single code) .semiStrict 20 s).map St.output = .error .undefinedError ∧
+    (runVm Ops.exec (Prog.single plain) .strict 20 s).map St.output = .ok "<i><" := by
+  refine ⟨?_, ?_, ?_, ?_⟩ <;> decide
+
+/-- `{% macro sp(p=1) %}{{ p }}{% endmacro %}[{{ sp(*u) }}]` as compiled: the splat is an iteration site -/
+example :
+    let code : Array Instr := #[.jump 10, .storeLocal "p", .lookup "p", .isUndefined, .jumpIfFalse 7, .loadConst (.int 1), .storeLocal "p",
+      .lookup "p", .emit, .ret, .getClosure, .loadConst (.seq [.str "p"]), .buildMacro "sp" 1 0, .storeLocal "sp",
+      .emitRaw "[", .lookup "u", .unpackLists 1, .callDyn (.callFunction "sp" 0), .emit, .emitRaw "]"]
+    (runVm Ops.exec (Prog.single code) .lenient 60 {}).map St.output = .ok "[1]" ∧
+    (runVm Ops.exec (Prog.single code) .semiStrict 60 {}).map St.output = .error .undefinedError := by
+  constructor <;> decide
+
 /-! ## the documented site matrix on the modelled VM sites -/
 
 theorem site_matrix : SiteMatrix := by
@@ -445,40 +658,40 @@ theorem site_matrix : SiteMatrix := by
   have hc : ((argTypeCode "&Value").getD (0, 0)).1 = 0 ∧ ((argTypeCode "Value").getD (0, 0)).1 = 0 := by decide
   have hk : ∀ v : V, v.isOpaque = false → isKwargsVal v = false := by
     intro v hv; cases v <;> simp [V.isOpaque, isKwargsVal] at hv ⊢
-  refine ⟨?_, ?_, ?_, ?_, ?_, ?_, ?_, ?_, ?_⟩
+  refine ⟨?_, ?_, ?_, ?_, ?_, ?_, ?_, ?_, ?_, ?_⟩
   · intro m s r hs
     by_cases hc : s.formatter = 0 <;> cases m <;>
-      simp [step, stepC, inspects, V.isOpaque, emitC, Comp.run, HQ.run, unitOk, hs, hc, isErr, emitChk, envFormat, V.kind,
+      simp [step, stepC, stepC1, inspects, V.isOpaque, emitC, Comp.run, HQ.run, unitOk, hs, hc, isErr, emitChk, envFormat, V.kind,
         lookupRow, Mode.code, UK.code, MJ.Gen.undefVmEmitFails, MJ.Gen.undefEnvFormat]
   · intro m s r hs
-    cases m <;> simp [step, stepC, inspects, V.isOpaque, guardQs, exec, Comp.run, Comp.bind, Comp.chks, Comp.ofExcept,
+    cases m <;> simp [step, stepC, stepC1, inspects, V.isOpaque, guardQs, exec, Comp.run, Comp.bind, Comp.chks, Comp.ofExcept,
       HQ.run, unitOk, hs, isErr, tryIterChk, assertIterable, check, V.kind, V.iterItems, lookupRow,
       Mode.code, UK.code, MJ.Gen.undefAssertIterable, MJ.Gen.undefTryIterViaAssertIterable]
   · intro m s r t hs
-    cases m <;> simp [step, stepC, inspects, V.isOpaque, guardQs, exec, Comp.run, Comp.bind, Comp.chks, Comp.ofExcept,
+    cases m <;> simp [step, stepC, stepC1, inspects, V.isOpaque, guardQs, exec, Comp.run, Comp.bind, Comp.chks, Comp.ofExcept,
       HQ.run, unitOk, hs, isErr, isTrueChk, check, V.kind, V.isTrue, lookupRow,
       Mode.code, UK.code, MJ.Gen.undefIsTrue, St.next]
   · intro m s r u n hs hu
     cases u <;> simp [V.isUndefined, V.kind, UK.isUndefined] at hu <;>
-    cases m <;> simp [step, stepC, inspects, guardQs, exec, Comp.run, Comp.bind, Comp.chks, Comp.ofExcept,
+    cases m <;> simp [step, stepC, stepC1, inspects, guardQs, exec, Comp.run, Comp.bind, Comp.chks, Comp.ofExcept,
       HQ.run, unitOk, hs, isErr, handleUndefined, check, V.getAttr, V.isUndefined, V.kind,
       UK.isUndefined, lookupRow, Mode.code, MJ.Gen.undefHandleUndefined]
   · intro m s r u k hs hu hko
     have ho1 : V.isOpaque V.undef = false := rfl
     have ho2 : V.isOpaque V.silent = false := rfl
     cases u <;> simp [V.isUndefined, V.kind, UK.isUndefined] at hu <;>
-    cases m <;> simp [step, stepC, inspects, ho1, ho2, hko, guardQs, exec, Comp.run, Comp.bind, Comp.chks, Comp.ofExcept,
-      HQ.run, unitOk, hs, isErr, handleUndefined, check, V.getItem, V.isUndefined, V.kind,
+    cases m <;> simp [step, stepC, stepC1, inspects, ho1, ho2, hko, guardQs, exec, Comp.run, Comp.bind, Comp.chks, Comp.ofExcept,
+      HQ.run, unitOk, hs, isErr, handleUndefined, check, V.getItem_undef, V.getItem_silent, V.isUndefined, V.kind,
       UK.isUndefined, lookupRow, Mode.code, MJ.Gen.undefHandleUndefined]
   · intro m s r kvs n hs hn
-    cases m <;> simp [step, stepC, inspects, guardQs, exec, Comp.run, Comp.bind, Comp.chks, Comp.ofExcept,
+    cases m <;> simp [step, stepC, stepC1, inspects, guardQs, exec, Comp.run, Comp.bind, Comp.chks, Comp.ofExcept,
       HQ.run, unitOk, hs, hn, handleUndefined, check, V.getAttr, V.isUndefined, V.kind,
       UK.isUndefined, lookupRow, Mode.code, MJ.Gen.undefHandleUndefined]
   · intro m s r v hs hv
     have hkv := hk v hv
     have hm : v.isObject = false := by
       cases v <;> simp [V.isOpaque, V.isObject] at hv ⊢
-    simp [step, stepC, inspects, builtinStep, callArgs, callBuiltin, callBuiltinN, hd, hu, hf, convCall, hp1, hp2, splitKwargs, isKwargsTy,
+    simp [step, stepC, stepC1, inspects, builtinStep, callArgs, callBuiltin, callBuiltinN, hd, hu, hf, convCall, hp1, hp2, splitKwargs, isKwargsTy,
       convArgs, convRest, convertOne, ArgTy.asks, hc.1, hc.2, hkv, handBody, testBody, filterBody, defaultBody, hm, hs,
       Comp.run, Comp.bind, Comp.chks, Comp.ofExcept, V.isTrue]
   · intro m s r v o hs hv ho
@@ -489,15 +702,20 @@ theorem site_matrix : SiteMatrix := by
       cases v <;> simp [V.isOpaque, V.isObject] at hv ⊢
     have hmo : o.isObject = false := by
       cases o <;> simp [V.isOpaque, V.isObject] at ho ⊢
-    simp [step, stepC, inspects, builtinStep, callArgs, callBuiltin, callBuiltinN, hf, convCall, hp2, splitKwargs, isKwargsTy,
+    simp [step, stepC, stepC1, inspects, builtinStep, callArgs, callBuiltin, callBuiltinN, hf, convCall, hp2, splitKwargs, isKwargsTy,
       convArgs, convRest, convertOne, ArgTy.asks, hw, hc.1, hc.2, hkv, hko, handBody, filterBody, defaultBody, hmv, hmo, hs,
       Comp.run, Comp.bind, Comp.chks, Comp.ofExcept]
   · intro m s r t hs
     by_cases hc : s.formatter = 0 <;> cases m <;>
-      simp [step, stepC, inspects, V.isOpaque, emitC, guardQs, exec, Comp.run, Comp.bind, Comp.chks, Comp.ofExcept,
+      simp [step, stepC, stepC1, inspects, V.isOpaque, emitC, guardQs, exec, Comp.run, Comp.bind, Comp.chks, Comp.ofExcept,
         HQ.run, unitOk, hs, hc, emitChk, envFormat, tryIterChk, assertIterable, isTrueChk, check, V.kind,
         V.iterItems, V.isTrue, lookupRow, Mode.code, UK.code, MJ.Gen.undefVmEmitFails,
         MJ.Gen.undefAssertIterable, MJ.Gen.undefIsTrue, MJ.Gen.undefTryIterViaAssertIterable, MJ.Gen.undefEnvFormat]
+  · intro m s r hs
+    have hp : popN 1 (V.undef :: r) = some ([V.undef], r) := by simp [popN, callArgs]
+    cases m <;> simp [step, stepC, stepC1, inspects, hs, hp, unpackListsC, V.isOpaque, Comp.run, Comp.bind, HQ.run, unitOk, isErr,
+      tryIterChk, assertIterable, check, V.kind, V.iterItems, lookupRow, Mode.code, UK.code,
+      MJ.Gen.undefAssertIterable, MJ.Gen.undefTryIterViaAssertIterable]
 
 /-- the nested chain `{{ a.b.c }}` with a defined `a` and a missing `b`, as compiled -/
 example :
@@ -518,6 +736,7 @@ theorem vm_sites_as_modelled :
     MJ.Gen.undefVmSites = [
       ("GetAttr", [("handle_undefined", "a.is_undefined()")]),
       ("GetItem", [("handle_undefined", "b.is_undefined()")]),
+      ("UnpackLists", [("try_iter", "list")]),
       ("Eq", [("assert_value_not_undefined", "a"), ("assert_value_not_undefined", "b")]),
       ("Ne", [("assert_value_not_undefined", "a"), ("assert_value_not_undefined", "b")]),
       ("Gt", [("assert_value_not_undefined", "a"), ("assert_value_not_undefined", "b")]),
@@ -579,6 +798,15 @@ theorem builtin_sites_as_modelled :
       ("filter", "format", ["format"], []),
       ("test", "in", ["undefined_behavior"], ["assert_iterable"])] ∧
     MJ.Gen.undefBuiltinSigs.length = 95 := by decide
+
+/-- **helper_rows_are_whole_bodies**: the five functions whose `match` rows the model interprets
+    (`handle_undefined`, `is_true`, `assert_iterable`, `assert_value_not_undefined`, `Environment::format`) consist of
+    that match and nothing else — no statement in front of it (an early return, e.g. for a discarding output,
+    would bypass the rows), nothing after it. -/
+theorem helper_rows_are_whole_bodies :
+    MJ.Gen.undefRowFnsWholeBody = [("utils.rs::handle_undefined", true), ("utils.rs::is_true", true),
+      ("utils.rs::assert_iterable", true), ("utils.rs::assert_value_not_undefined", true),
+      ("environment.rs::format", true)] := by decide
 
 /-- the modes that take an error branch form an upward closed set in
     `Chainable(0) ≤ Lenient(1) ≤ SemiStrict(2) ≤ Strict(3)` -/
